@@ -3,6 +3,7 @@
 set -e
 cd "$(dirname "$0")"
 export GOFLAGS=-mod=mod GOPROXY=off
+python3 lib/gen_main.py
 (cd lean && lake build Dawgs dawgsmodel)
 cp /repo/go.sum harness/go.sum
 (cd harness && go build -tags verif -o bin/harness .)
